@@ -2,7 +2,7 @@
    closes the chain implementation ~ model = spec for every op the correspondences compare *)
 From Coq Require Import ZArith NArith List Lia Bool Arith.
 From KT Require Import Gen.Generated Gen.Alphabet Model.Kmer Model.Show Model.Ops Model.Rows Model.Pipeline.
-From KT Require Import Proof.KmerProof Proof.MinAbs Proof.MinSpec Proof.MinConc Proof.MinExt Proof.RowsProof Proof.PipelineProof Proof.CountProof.
+From KT Require Import Proof.KmerProof Proof.MinAbs Proof.MinSpec Proof.MinConc Proof.MinExt Proof.MinFast Proof.RowsProof Proof.PipelineProof Proof.CountProof.
 Import ListNotations.
 Open Scope N_scope.
 
@@ -28,7 +28,7 @@ Hypothesis Hw : (w = 0 \/ m <= w)%nat.
 
 Lemma runs_model_spec s : Forall (fun b => nt4m b = digit_of_letter b) s -> rec_runs w m s = rec_runs_spec w m s.
 Proof.
-  intros Hs. unfold rec_runs, rec_runs_spec.
+  intros Hs. unfold rec_runs, rec_runs_spec. rewrite spec_runs_fast_eq.
   assert (He : (1 <= m <= eff_w w m s)%nat).
   { unfold eff_w. destruct (Nat.eqb_spec w 0); lia. }
   rewrite (mg_run_grp nt4m (eff_w w m s) m He Hm31 s).
